@@ -135,3 +135,13 @@ Definition basic_validate (accounts : list (string * string)) (hdr : option (str
   | Some (u, p) => if existsb (fun c => String.eqb (fst c) u && String.eqb (snd c) p) accounts then Some u else None
   | None => None
   end.
+
+(* ---------- accounts/casbin.go with the matcher of the repository's model file ----------
+   m = r.sub == p.sub && (r.obj == p.obj || p.obj == "*") && (r.act == p.act || p.act == "*") || r.sub == "root"
+   A policy is a list of (user, graph, operation) lines.  The verdict is a function of the policy and the request alone:
+   a sequence of calls on one enforcer is judged call by call. *)
+Definition casbin_line_ok (req line : string * string * string) : bool :=
+  let '(ru, rg, ro) := req in let '(pu, pg, po) := line in
+  String.eqb ru pu && (String.eqb rg pg || String.eqb pg "*") && (String.eqb ro po || String.eqb po "*").
+Definition casbin_allows (policy : list (string * string * string)) (req : string * string * string) : bool :=
+  existsb (casbin_line_ok req) policy || String.eqb (fst (fst req)) "root".
